@@ -143,6 +143,7 @@ def check_property(pid, tier='quick', seed=0, replay_only=None):
     exit_code = 0
     lines = []
     replays = []
+    internal_only = []
     if undecided or never_proved:
         exit_code = 2
         for x in undecided:
@@ -153,11 +154,21 @@ def check_property(pid, tier='quick', seed=0, replay_only=None):
         lines.append('KNOWN-FINDING: property=%s %s' % (pid, k['what']))
     if violations and not undecided:
         from . import replay as RP
-        exit_code = 1
+        confirmed = []
         for oid, msgs in violations:
-            path, found = RP.make_replay(pid, oid, msgs, obligations.get(oid), seed)
+            info = obligations.get(oid) or {}
+            path, found = RP.make_replay(pid, oid, msgs, info, seed)
             replays.append(path)
-            lines.append('VIOLATION property=%s replay=%s%s' % (pid, path, '' if found else ' no-failing-input-found'))
+            if found or info.get('property_level', True):
+                confirmed.append(oid)
+                lines.append('VIOLATION property=%s replay=%s%s' % (pid, path, '' if found else ' no-failing-input-found'))
+            else:
+                # a proof-internal obligation (loop invariant / hint assertion): the property-level clauses of the
+                # function were checked assuming it, and the replay search found no failing input: no verdict
+                internal_only.append(oid)
+                lines.append('UNDECIDED property=%s proof-internal obligation %s no longer holds (the proof needs repair) and no failing input was found on the real code; see %s' % (pid, oid, path))
+        violations = [(o, m) for (o, m) in violations if o in confirmed]
+        exit_code = 1 if violations else 2
     elif violations:
         for oid, msgs in violations:
             lines.append('UNDECIDED property=%s obligation %s fails, but the unit is undecided so it is not reported as a violation' % (pid, oid))
@@ -186,7 +197,7 @@ def check_property(pid, tier='quick', seed=0, replay_only=None):
             'known_finding_obligations': [k['obligation'] for k in known_hits],
             'bounded_standins': [k for k in kani_res if not k.get('counts_as_proof')],
             'kani_complete_proofs': [k for k in kani_res if k.get('counts_as_proof')],
-            'undecided': undecided + never_proved,
+            'undecided': undecided + never_proved + internal_only,
             'stability': {u: getattr(r, 'stability', None) for u, r in results.items()},
             'cvc5_cross_check': {u: getattr(r, 'cvc5', None) for u, r in results.items()},
             'not_reached': entry.get('not_reached', ''),
@@ -201,7 +212,7 @@ def check_property(pid, tier='quick', seed=0, replay_only=None):
     for l in lines:
         print(l)
     print('%s tier=%s obligations=%d discharged=%d known=%d violations=%d undecided=%d wall=%.1fs' % (
-        pid, tier, n_obl, n_dis, len(known_hits), len(violations), len(undecided) + len(never_proved), time.time() - t0))
+        pid, tier, n_obl, n_dis, len(known_hits), len(violations), len(undecided) + len(never_proved) + len(internal_only), time.time() - t0))
     return exit_code
 
 
